@@ -495,6 +495,8 @@ def write (file : Nat) (buffer : Bytes) : M Unit := do
   let bytesUntilMax := MAX_FILE_SIZE - f.currentOffset
   let bytesToWrite := min buffer.length bytesUntilMax
   writeLoop fileIdx volIdx (bytesToWrite + 1) (buffer.take bytesToWrite)
+  -- the part beyond the maximum file size was dropped: report it (as a write that runs out of clusters does)
+  if bytesToWrite < buffer.length then M.fail .DiskFull else pure ()
 
 /-- `flush_file(file)`. -/
 def flushFile (file : Nat) : M Unit := do
